@@ -45,13 +45,10 @@ def judge_ranges(ctx, cases, outs):
             obs = "(Some %s)" % glist(rs, lambda p: "(%d, %d)" % (p[0], p[1]))
             fuel = len(rs) + 2
         rows.append("((%d, %d, %d), %d%%nat, %s)" % (f, c["begin"], c["end"], fuel, obs))
-    src = ("From BX Require Import Base.Prelude Model.Ranges.\nLocal Open Scope N_scope.\n"
-           "Definition cases : list ((N * N * N) * nat * option (list (N * N))) :=\n %s.\n"
-           "Definition M := Eval vm_compute in map judge_ranges cases.\nPrint M.\n") % glist(rows)
-    rc, out = vlib.coq_eval("C20_ranges", src)
-    vs = vlib.parse_verdicts(out)
-    if rc != 0 or vs is None or len(vs) != len(cases):
-        ctx.broken("correspondence:judge_ranges", out[-1500:])
+    vs, msg = vlib.coq_judge_sharded("C20_ranges", "From BX Require Import Base.Prelude Model.Ranges.\nLocal Open Scope N_scope.",
+                                     "(N * N * N) * nat * option (list (N * N))", "judge_ranges", rows)
+    if vs is None:
+        ctx.broken("correspondence:judge_ranges", msg)
         return None
     return vs
 
